@@ -42,6 +42,23 @@ def correspondence(ctx):
         s += ["dm %s" % pipeline.hx(1.0), "fops"] + ["fop1 quad %d %d" % (r.below(M), r.below(M)) for _ in range(3)]
         scripts.append(s)
         metas.append((symm, m))
+    # atomic-limit models (on-site terms only) with user-supplied additive integrals whose eigenvalues are not multiples of
+    # 1/2: every sum_i x_i n_i is conserved there, so the analysis must accept it and separate all its values
+    for _ in range(150 if thorough else 14):
+        m = pipeline.gen_sites(r, r.choice([3, 4, 4, 5 if thorough else 4]), spin_half=r.choice([None, False]), nsites=r.choice([2, 3, 3]))
+        pipeline.add_random_terms(r, m, False, allow=("level", "coulombS", "magnetization", "level"))
+        M = m.modes()
+        idx = m.index_list()
+        xs = [r.choice([0.0, 0.25, 0.25, 0.5, 0.75, 0.125, 1.0]) for _ in range(M)]
+        if r.chance(1, 2):      # per-site weights
+            ws = {l: r.choice([0.25, 0.5, 0.75, 0.25]) for l, _, _ in m.sites}
+            xs = [ws[l] for (l, o, sp) in idx]
+        polys = ["%d %s" % (M, " ".join("%s 2 0 %d 1 %d" % (pipeline.val(1.0), i, i) for i in range(M))),
+                 "%d %s" % (M, " ".join("%s 2 0 %d 1 %d" % (pipeline.val(x), i, i) for i, x in enumerate(xs)))]
+        s = pipeline.core_script(m, order=0, symm="symm custom %d %s" % (len(polys), " ".join(polys)))
+        s += ["dm %s" % pipeline.hx(1.0), "fops"] + ["fop1 quad %d %d" % (r.below(M), r.below(M)) for _ in range(3)]
+        scripts.append(s)
+        metas.append(("custom", m))
     res = pipeline.run_batch(scripts, "real")
     pipeline.collect(ctx, res, ["C07"])
     for (symm, m), s, rs in zip(metas, scripts, res):
